@@ -98,6 +98,32 @@ def build_corpus(rng, thorough):
                 return (m.to_er7(), m.version, m.validation_level,
                         sorted(str(e) for e in m.validate(return_errors=True).errors))
             corpus.append((('parse_message', v, lvl), pm, None))
+        # messages written with their own (non-default) delimiters, with a Z-segment and a segment the structure
+        # does not list: every segment must be split with the delimiters found in MSH-1/MSH-2
+        for ei, ecs in enumerate(EC_SETS[1:], 1):
+            f, c, r, e, sb = ecs['FIELD'], ecs['COMPONENT'], ecs['REPETITION'], ecs['ESCAPE'], ecs['SUBCOMPONENT']
+            mt2 = mt.replace('^', c)
+            lines = [f.join(['MSH', c + r + e + sb, 'A', 'B', 'C', 'D', '20200101', '', mt2, '1', 'P', v]),
+                     f.join(['EVN', 'A01', '20200101']),
+                     f.join(['PID', '1', '', 'X' + c + 'Y' + sb + 'Z' + r + 'W']),
+                     f.join(['ZPI', '1', 'AA' + c + 'BB' + sb + 'CC', 'tail']),
+                     f.join(['PV1', '1', 'I']),
+                     f.join(['OBX', '1', 'ST', 'k' + c + 'l', '', 'val'])]
+            ctext = '\r'.join(lines)
+            for fg in (True, False):
+                def pmc(ctext=ctext, fg=fg):
+                    m = parse_message(ctext, validation_level=S.TOLERANT, find_groups=fg)
+                    segs = []
+
+                    def walk(el):
+                        for ch in el.children:
+                            if ch.classname == 'Segment':
+                                segs.append((ch.name, [(fld.name, len(fld.children)) for fld in ch.children]))
+                            else:
+                                walk(ch)
+                    walk(m)
+                    return (m.to_er7(), segs)
+                corpus.append((('parse_message-custom-delimiters', v, ei, fg), pmc, None))
     return corpus
 
 
